@@ -91,6 +91,9 @@ def make_systems(seat: int, rnd, dec: Decisions, style: Dict[str, Any],
             # the seat whose card this is: dummy's when declarer plays for it
             owner = env.active_player.value - 1
             dec.add(owner, 'card', c, seat, holder['client'].board_num)
+            # what the client's own replica offered to its playing system (C06)
+            dec.log[-1]['offered'] = legal
+            dec.log[-1]['held'] = held
             return card(c)
 
     return Bidder(), Player_()
